@@ -67,7 +67,7 @@ def _run_san(exe, lines, rundir, tag):
 def extra(ctx):
     out = []; rundir = ctx["rundir"]; tier = ctx["tier"]; rng = random.Random(ctx["seed"] + 12)
     built = {}
-    total = 0; t0 = time.time(); per_prop = {}
+    total = 0; t0 = time.monotonic(); per_prop = {}
     sys.path.insert(0, os.path.join(core.VERIF, "lib", "props"))
     for pid, drvname, k in CORPORA:
         if drvname not in built:
@@ -93,7 +93,7 @@ def extra(ctx):
         reps = _run_san(exe, [c.line for c in ctx["cases"]], rundir, "san_C12"); total += len(ctx["cases"])
         for r in reps[:3]:
             out.append(("sanitizer", "sanitizer report on a direct case: %s" % r["report"], dict(key="sanitizer C12 %s" % r["report"][:80], cases=[dict(case=r["case"])], implementation=r["report"], build=" ".join(SAN_FLAGS))))
-    ctx["extra_cov"].update(dict(sanitizer_cases_run=total, sanitizer_cases_per_property=per_prop, sanitizer_build="g++ -O1 " + " ".join(SAN_FLAGS), sanitizer_wall_s=round(time.time() - t0, 1)))
+    ctx["extra_cov"].update(dict(sanitizer_cases_run=total, sanitizer_cases_per_property=per_prop, sanitizer_build="g++ -O1 " + " ".join(SAN_FLAGS), sanitizer_wall_s=round(time.monotonic() - t0, 1)))
     return out
 
 def key(case, impl, model):
